@@ -1,5 +1,108 @@
-/- Line-protocol driver for the C06 model (stub until the model exists). -/
-import ForML.Model.Sexp
-open ForML
+/- Line-protocol driver for the C06 models (ForML.Model.Parser, ForML.Model.DslDenote, ForML.Model.FeedCache).
 
-def main : IO Unit := driverLoop (fun _ => .atom "no-model")
+  line   ::= (let ((var sexp)*) op) | op
+  op     ::= (parse sources stmt)                 -> (ok <agrees-with-compile>) | (error <kind>)
+           | (run sources stmt db)                -> ((parse ok|<kind>) (sql <rel>|none) (denote <rel>|none))
+           | (hist (feed*) (db*) (hop*))          -> ((run (<rel>|none)*) (spec (<rel>|none)*))   one entry per read
+  feed   ::= (alchemy|lazy sources storage-index)
+  hop    ::= (read feed-index stmt) | (mutate storage-index db) | (restart)
+  sources::= ((source pname)*)
+  db     ::= ((pname (col*) (row*))*)      row ::= (val*)      val ::= null | (i n) | (b true|false) | (s text)
+  rel    ::= ((name|none)*) (row*)
+-/
+import ForML.Model.Sexp
+import ForML.Model.Dsl
+import ForML.Model.Parser
+import ForML.Model.DslDenote
+import ForML.Model.FeedCache
+open ForML ForML.Dsl ForML.Rel ForML.Parser
+
+def valOfSexp : Sexp → Option Val
+  | .atom "null" => some .null
+  | .list [.atom "i", n] => n.int?.map .int
+  | .list [.atom "b", .atom "true"] => some (.bool true)
+  | .list [.atom "b", .atom "false"] => some (.bool false)
+  | .list [.atom "s", .atom s] => some (.str s)
+  | _ => none
+
+def valToSexp : Val → Sexp
+  | .null => .atom "null"
+  | .int n => .list [.atom "i", Sexp.ofInt n]
+  | .bool b => .list [.atom "b", Sexp.ofBool b]
+  | .str s => .list [.atom "s", .atom s]
+
+def rowOfSexp : Sexp → Option Row
+  | .list vs => vs.mapM valOfSexp
+  | _ => none
+
+def dbOfSexp : Sexp → Option Db
+  | .list ts => ts.mapM (fun t => match t with
+    | .list [.atom pn, .list cols, .list rows] => do
+      let cs ← cols.mapM Sexp.str?
+      let rs ← rows.mapM rowOfSexp
+      pure (pn, ({ cols := cs, rows := rs } : PhysTable))
+    | _ => none)
+  | _ => none
+
+def sourcesOfSexp : Sexp → Option Sources
+  | .list ps => ps.mapM (fun p => match p with
+    | .list [s, .atom pn] => (Source.ofSexp s).map (fun s => (s, pn))
+    | _ => none)
+  | _ => none
+
+def relToSexp (o : ORel) : Sexp :=
+  .list [.list (o.names.map (fun n => match n with | some n => .list [.atom "some", .atom n] | none => .atom "none")),
+         .list (o.rows.map (fun r => .list (r.map valToSexp)))]
+
+def optRelToSexp : Option ORel → Sexp
+  | some o => relToSexp o
+  | none => .atom "none"
+
+def feedOfSexp : Sexp → Option FeedCache.Feed
+  | .list [.atom k, srcs, i] => do
+    let kind ← match k with
+      | "alchemy" => some FeedCache.FeedKind.alchemy
+      | "lazy" => some FeedCache.FeedKind.lazy
+      | _ => none
+    pure { kind := kind, srcs := ← sourcesOfSexp srcs, storage := ← i.nat? }
+  | _ => none
+
+def hopOfSexp : Sexp → Option FeedCache.Op
+  | .list [.atom "read", i, s] => do pure (.read (← i.nat?) (← Source.ofSexp s))
+  | .list [.atom "mutate", i, db] => do pure (.mutate (← i.nat?) (← dbOfSexp db))
+  | .list [.atom "restart"] => some .restart
+  | _ => none
+
+def stepHist : Sexp → Sexp
+  | .list [.atom "hist", .list feeds, .list dbs, .list ops] =>
+    match feeds.mapM feedOfSexp, dbs.mapM dbOfSexp, ops.mapM hopOfSexp with
+    | some feeds, some dbs, some ops =>
+      .list [.list (.atom "run" :: (FeedCache.run feeds { storages := dbs } ops).map optRelToSexp),
+             .list (.atom "spec" :: (FeedCache.spec feeds dbs ops).map optRelToSexp)]
+    | _, _, _ => .atom "bad-op"
+  | _ => .atom "bad-op"
+
+def stepC06 (line : Sexp) : Sexp :=
+  match expandLet line with
+  | some (.list [.atom "parse", srcs, stmt]) =>
+    match sourcesOfSexp srcs, Source.ofSexp stmt with
+    | some srcs, some s =>
+      match parse srcs s with
+      | .ok q => .list [.atom "ok", Sexp.ofBool (compile srcs s == some q)]
+      | .error e => .list [.atom "error", .atom e.wire]
+    | _, _ => .atom "bad-op"
+  | some (.list [.atom "run", srcs, stmt, db]) =>
+    match sourcesOfSexp srcs, Source.ofSexp stmt, dbOfSexp db with
+    | some srcs, some s, some db =>
+      let p := parse srcs s
+      let sql := match p with
+        | .ok q => evalSql q db
+        | .error _ => none
+      .list [.list [.atom "parse", .atom (match p with | .ok _ => "ok" | .error e => e.wire)],
+             .list [.atom "sql", optRelToSexp sql],
+             .list [.atom "denote", optRelToSexp (ForML.Denote.denote srcs s db)]]
+    | _, _, _ => .atom "bad-op"
+  | some (.list (.atom "hist" :: rest)) => stepHist (.list (.atom "hist" :: rest))
+  | _ => .atom "bad-op"
+
+def main : IO Unit := driverLoop stepC06
